@@ -220,7 +220,7 @@ def c15_r1_protocol(ctx, rule="C15.R1"):
     idx_l = None
     for l, n in b.var_names.items():
         for sh, site, ex in q.def_shapes(b, l, {}):
-            if sh.startswith("some(Iterator::position("):
+            if sh.startswith("try(Iterator::position("):
                 idx_l = l
     rest_l = None
     for l, n in b.var_names.items():
@@ -231,7 +231,7 @@ def c15_r1_protocol(ctx, rule="C15.R1"):
     if not ctx.check(idx_l is not None and rest_l is not None, rule, fn, "roles", "the terminator index and the unprocessed rest are recognisable"):
         return
     roles = {idx_l: "idx", rest_l: "rest"}
-    found = expect_defs(ctx, rule, b, idx_l, roles, {"some(Iterator::position(*))": "found", "Add(1,idx)": "crlf-merge"}, ["found", "crlf-merge"], "terminator index")
+    found = expect_defs(ctx, rule, b, idx_l, roles, {"try(Iterator::position(*))": "found", "Add(1,idx)": "crlf-merge"}, ["found", "crlf-merge"], "terminator index")
     for site in found.get("crlf-merge", []):
         ok1 = has_fact(b, site[0], roles, ("Eq", "13", "rest[idx]"))
         ok2 = has_fact(b, site[0], roles, ("true", "PartialEq::eq(slice::get(rest,Add(1,idx)),*)", None))
@@ -352,7 +352,7 @@ def c15_r3_iter(ctx, rule="C15.R3"):
             sh = q.shape(b.expr_of_rvalue(s["rv"]))
             ctx.check(sh == "Add(1,arg1.idx)", rule, fn, "idx+=1", "the index advances by one", ctx.site(b, bi, si))
             ctx.check(has_fact(b, bi, {}, *opt_fact("some", "SourceView::get_line(*)")), rule, fn, "idx:on-some", "... only after a line was returned", ctx.site(b, bi, si))
-    somes = [site[0] for sh, site, _ in q.def_shapes(b, 0, {}) if sh.startswith("Option::Some{") or sh.startswith("some(") or "get_line" in sh and not sh.startswith("Option::None")]
+    somes = [site[0] for sh, site, _ in q.def_shapes(b, 0, {}) if sh.startswith("Option::Some{") or sh.startswith("try(") or "get_line" in sh and not sh.startswith("Option::None")]
     somes = [site[0] for sh, site, _ in q.def_shapes(b, 0, {}) if sh != "Option::None{}" and not sh.startswith("FromResidual")]
     ctx.check(len(advs) == 1 and bool(somes) and all(b.dominates(advs[0], x) or advs[0] == x for x in somes), rule, fn, "idx:advances", "every returned line advances the index (each line is yielded once)")
     b2 = ctx.body(LINE_COUNT)
